@@ -217,13 +217,18 @@ let run_auth fl toks impl =
      | rq :: dgs :: _ when String.length rq > 4 && String.sub rq 0 4 = "req=" ->
        let req = bytes_of_hex (kv rq "req") in
        let dl = let d = kv dgs "dgs" in if d = "-" then [] else List.map bytes_of_hex (String.split_on_char ',' d) in
-       let g = match authenticate_radius md5f fl secret req dl with
-         | AAllowed attrs -> "allowed:" ^ show_delta attrs
-         | ADenied -> "denied"
-         | AError -> "error" in
-       let expected = refill_ma md5f secret req in
-       let reqma = match find_attr80 expected with None -> "-" | Some _ -> if ma_ok_asis md5f secret expected then "1" else "0" in
-       "req=" ^ hex_of_bytes expected ^ " " ^ dgs ^ " reqma=" ^ reqma ^ " got=" ^ g
+       (* admissible choice (cstep_g): verifying datagrams with an irregular Message-Authenticator may be ignored.  The model is
+          evaluated under both uniform policies; the implementation's line is accepted only if it equals one of them *)
+       let line rejall =
+         let g = match authenticate_failover_g_radius md5f fl (fun _ -> rejall) [((secret, req), dl)] with
+           | AAllowed attrs -> "allowed:" ^ show_delta attrs
+           | ADenied -> "denied"
+           | AError -> "error" in
+         let expected = refill_ma md5f secret req in
+         let reqma = match find_attr80 expected with None -> "-" | Some _ -> if ma_ok_asis md5f secret expected then "1" else "0" in
+         "req=" ^ hex_of_bytes expected ^ " " ^ dgs ^ " reqma=" ^ reqma ^ " got=" ^ g in
+       let l0 = line false in
+       if l0 = impl then l0 else (let l1 = line true in if l1 = impl then l1 else l0)
      | _ -> "NOIMPL")
   | _ -> "badcase"
 
@@ -253,6 +258,8 @@ let run_fail fl toks impl =
             let d = kv dg "dgs" in
             (r, d)
           | _ -> failwith "seg") (fst (take n segs)) in
+      let line rejall =
+      let rej = (fun _ -> rejall) in
       (* walk the servers as the model prescribes *)
       let rec walk i secs obs tried acc =
         match secs, obs with
@@ -265,19 +272,21 @@ let run_fail fl toks impl =
             let line = Printf.sprintf "s%d:req=%s dgs=%s" i (hex_of_bytes (expected_wire md5f sec req)) d in
             let st = ((sec, req), dl) in
             let acc' = (line :: fst acc, st :: snd acc) in
-            (match try_server md5f fl st with
+            (match try_server_g md5f fl rej st with
              | Some _ -> walk (i+1) sr orr `Stop acc'
              | None -> walk (i+1) sr orr `Go acc')
         | _, _ -> acc in
       let (lines, servers) = walk 0 secs obs `Go ([], []) in
       let lines = List.rev lines and servers = List.rev servers in
       let lines = if List.length lines < n then lines @ List.init (n - List.length lines) (fun j -> Printf.sprintf "s%d:req=- dgs=-" (List.length lines + j)) else lines in
-      let g = if kind = "acct" then (if accounting_failover md5f fl servers then "ok" else "error")
-        else (match authenticate_failover_radius md5f fl servers with
+      let g = if kind = "acct" then (if accounting_failover_g md5f fl rej servers then "ok" else "error")
+        else (match authenticate_failover_g_radius md5f fl rej servers with
             | AAllowed attrs -> "allowed:" ^ show_delta attrs
             | ADenied -> "denied"
             | AError -> "error") in
-      String.concat " ; " lines ^ " ; got=" ^ g
+      String.concat " ; " lines ^ " ; got=" ^ g in
+      let l0 = line false in
+      if l0 = impl then l0 else (let l1 = line true in if l1 = impl then l1 else l0)
   | _ -> "badcase"
 
 (* ------------------------------------------------------------ literal tables of the model *)
